@@ -98,6 +98,7 @@ class World:
 
     def __init__(self):
         self.events = []
+        self.site_hook = None  # callable(proc, site, count): the environment acting from inside user code (e.g. a pause)
         self.fault = None  # (site, occurrence) -> raise InjectedFault there
         self.fault_counts = {}
         self.fault_fired = None  # the InjectedFault instance once raised
@@ -129,6 +130,8 @@ class World:
         """A potential fault site was reached."""
         count = self.fault_counts.get(site, 0)
         self.fault_counts[site] = count + 1
+        if self.site_hook is not None:
+            self.site_hook(proc, site, count)
         fault = self.fault
         if fault is not None and fault[0] == site and fault[1] == count and self.fault_fired is None:
             exc = InjectedFault(f'{site}#{count}')
